@@ -8,7 +8,7 @@
    absolute), line indices in [-64, 64] INCLUDING 0 (treated as auto), spans in [1, 64].  `span 0` is excluded: CSS
    forbids it and taffy gives such an item an empty area.  All four auto-flow modes.
    Every theorem has the premise that the run returns Ok; Props/C03.v proves that it does on the whole domain. *)
-From Coq Require Import ZArith Bool List.
+From Coq Require Import ZArith Bool List Lia.
 From TV Require Import Model.PlacementBase Gen.PlacementGen Model.Placement
   Proofs.PlacementTables Proofs.PlacementMatrix Proofs.PlacementProofs Proofs.PlacementTotal.
 Import ListNotations.
@@ -75,14 +75,39 @@ Definition ex_children : list (child_kind * child) :=
     (InFlow, mkChild (mkLn Auto Auto) (mkLn (Line (-5)) Auto)) ].
 
 Example C08_example :
+  in_domain 3 1 ex_children /\
   exists o, grid_placement_run 3 1 FRow ex_children = Ok o /\
             map (fun p => [p_index p; p_row_start p; p_row_end p; p_col_start p; p_col_end p]) (o_items o)
             = [[0; 1; 2; 3; 5]; [2; 1; 2; 1; 3]; [3; 2; 3; 1; 2]] /\
             expected (mkLn (Span 2) (Line (-1))) 3 = Some (1, 3).
-Proof. eexists. split; [vm_compute; reflexivity|]. split; vm_compute; reflexivity. Qed.
+Proof.
+  split.
+  { unfold in_domain, ex_children. split; [lia|]. split; [lia|]. split; [simpl; lia|].
+    repeat constructor; simpl; lia. }
+  eexists. split; [vm_compute; reflexivity|]. split; vm_compute; reflexivity.
+Qed.
+
+(* The domain excludes `span 0`, which the property's quantifier ("all combinations of line/span/auto placements") does not:
+   `GridPlacement::Span(0)` is constructible through the public API (CSS forbids it, taffy does not validate it).  Outside
+   the domain the first clause of the property is FALSE, on the model and -- replayed by lib/props/c08.py on every run,
+   `vh c08 one 3 1 0 2  0 0 0 0 0 2 0 0 0  0 0 0 0 0 0 0 0 0` -- on the implementation: in a 3-column grid a child with
+   `grid_column: span 0` receives the empty column area 1..1 (its auto-placed sibling gets 1..2).  Everything else about the
+   witness is inside the domain (2 children, explicit 3 x 1, no lines). *)
+Definition span_zero_children : list (child_kind * child) :=
+  [ (InFlow, mkChild (mkLn Auto Auto) (mkLn (Span 0) Auto));
+    (InFlow, mkChild (mkLn Auto Auto) (mkLn Auto Auto)) ].
+
+Theorem C08_area_in_range_refuted_for_span_zero :
+  exists o p, grid_placement_run 3 1 FRow span_zero_children = Ok o /\ In p (o_items o) /\
+              p_index p = 0 /\ p_col_start p = 1 /\ p_col_end p = 1 /\ ~ (p_col_start p < p_col_end p).
+Proof.
+  eexists. eexists. split; [vm_compute; reflexivity|]. split; [left; reflexivity|].
+  cbn. repeat split; try reflexivity. lia.
+Qed.
 
 Print Assumptions C08_every_child_placed.
 Print Assumptions C08_area_in_range.
 Print Assumptions C08_explicit_honoured.
 Print Assumptions C08_auto_no_overlap.
 Print Assumptions C08_placement_succeeds_with_all_clauses.
+Print Assumptions C08_area_in_range_refuted_for_span_zero.
